@@ -75,6 +75,7 @@ Record sync_case := {
   sc_more : Z;                 (* measured: encoded size of More=true *)
   sc_limit : Z;                (* ttrpc's maximum message length *)
   sc_stub : bool;              (* plugin end: real stub.Stub (true) or raw scripted service (false) *)
+  sc_nohandler : bool;         (* stub: the plugin has no Synchronize handler (events only) *)
   sc_script : script;
   sc_nupd : Z;                 (* updates the plugin returns in its final reply *)
   (* observation *)
@@ -131,7 +132,7 @@ Definition model_proj (c : sync_case) : proj :=
   let ctrs := case_ctrs c in
   if sc_stub c then
     proj_outcome c (@ss_calls obj obj)
-      (synchronize (case_xmit c) (stub_sync (Some (stub_handler (sc_script c) (sc_nupd c)))) recalc
+      (synchronize (case_xmit c) (stub_sync (if sc_nohandler c then None else Some (stub_handler (sc_script c) (sc_nupd c)))) recalc
                    (sync_fuel pods ctrs) pods ctrs stub_init)
   else
     proj_outcome c (fun _ : Z => [])
@@ -193,8 +194,10 @@ Definition holds_sync (c : sync_case) : bool :=
       more_flags_ok (map (fun m : pmsg => snd (fst m)) (pj_msgs o)) &&
       (* the handler is invoked exactly once with the whole state *)
       (if sc_stub c
-       then list_eqb (pair_eqb zlist_eqb zlist_eqb) (pj_calls o) [(zseq 0 np, zseq 0 nc)]
+       then list_eqb (pair_eqb zlist_eqb zlist_eqb) (pj_calls o) (if sc_nohandler c then [] else [(zseq 0 np, zseq 0 nc)])
        else true) &&
+      (* registration completed: the plugin is active (it receives the event sent afterwards) *)
+      (if sc_nohandler c then sc_active c else true) &&
       (* the updates the plugin returned reach the runtime *)
       zlist_eqb (pj_upd o) (zseq 0 (Z.to_nat (sc_nupd c)))
   | OFailed =>
